@@ -236,12 +236,12 @@ PROFILES = {
         4, ["FILES", "DIRCLEAN", "DANGLE", "PTR", "OPFAIL"],
         c(Ops=CORE1 | {"snap"}, MaxSeq=4, MaxSnaps=1),
         [sim(8, 24, MaxSeq=16, MaxTables=5, MaxHist=20, MaxSnaps=2, MaxSealed=2, BigVals={2, 3},
-             Ops=CORE1 | {"snap", "clear", "droprange", "ingest"}, WriteBias=3),
-         drv(24, 160, dict(DRIVE_SNAP_W, clear=0.4, droprange=0.8, ingest=0.5, major=1.0))],
+             Ops=CORE1 | {"snap", "clear", "droprange", "ingest", "litter"}, WriteBias=3),
+         drv(24, 160, dict(DRIVE_SNAP_W, clear=0.4, droprange=0.8, ingest=0.5, major=1.0, reopen=0.8), litter=0.6)],
         c(Ops=CORE1 | {"snap"}, MaxSeq=6, MaxSnaps=1),
         [sim(800, 30, Keys={1, 2, 3}, MaxSeq=24, MaxTables=6, MaxHist=30, MaxSnaps=2, MaxSealed=2,
-             BigVals={2, 3}, Ops=CORE1 | {"snap", "clear", "droprange", "ingest"}, WriteBias=4),
-         drv(300, 400, dict(DRIVE_SNAP_W, clear=0.4, droprange=0.8, ingest=0.5, major=1.0))],
+             BigVals={2, 3}, Ops=CORE1 | {"snap", "clear", "droprange", "ingest", "litter"}, WriteBias=4),
+         drv(300, 400, dict(DRIVE_SNAP_W, clear=0.4, droprange=0.8, ingest=0.5, major=1.0, reopen=0.8), litter=0.6)],
         blobs=[None, None] + BLOBS, val_alphas=[1], regress=["findings/C20-clear-leaves-files.replay.json"]),
     # C18 sequence number high-water marks
     "C18": tree_profile(
@@ -254,3 +254,16 @@ PROFILES = {
              Ops=CORE_OPS | {"ingest", "clear"}, WriteBias=4),
          drv(400, 400, dict(DRIVE_W, ingest=0.7, clear=0.2, droprange=0.5))]),
 }
+
+# design-level key-value separation model (spec/LsmBlobModel.tla) for C08 / C09
+_BM_OPS = {"write", "rotate", "flush", "major", "reopen"}
+PROFILES["C08"]["quick"]["blob_model"] = blob_model(
+    Ops={"write", "rotate", "flush", "major", "snap"}, MaxSeq=5, MaxSnaps=1, MaxHist=3, DestLevels={6})
+PROFILES["C08"]["thorough"]["blob_model"] = blob_model(
+    timeout=3000, workers=12, Vals={1, 2}, MaxSeq=5, MaxSnaps=1, MaxHist=3,
+    Ops={"write", "rotate", "flush", "merge", "major", "droprange", "reopen", "snap"})
+PROFILES["C09"]["quick"]["blob_model"] = blob_model(
+    Ops=_BM_OPS, MaxSeq=5, MaxHist=2, DestLevels={6}, BlobPerFile=False)
+PROFILES["C09"]["thorough"]["blob_model"] = blob_model(
+    timeout=3000, workers=12, Ops=_BM_OPS | {"droprange"}, MaxSeq=6, MaxHist=2, DestLevels={6},
+    BlobPerFile=False)
